@@ -9,7 +9,7 @@ box=sys.argv[1]
 repo=box+'/repo'; ver=box+'/verif'
 ONLY=set(sys.argv[2:])
 # later commits that touch the same lines are undone together with the fix (newest first)
-ALSO={'KF-C04-01':['9d34644','cf06b08'],'KF-C09-08':['21bcd7c','3ef5099','5655cc9'],'KF-C04-04':['21bcd7c','3ef5099','5655cc9'],'KF-C09-10':['21bcd7c','3ef5099'],'KF-C08-03':['3d15d91','12432c4'],'KF-C10-18':['ae68f6e','8a5e8ec'],'KF-C10-14':['c48641a','ae68f6e','9405992'],'KF-C02-07':['1dc7e3b','fadd40e','d811ef2'],'KF-C02-08':['1dc7e3b','fadd40e'],'KF-C05-06':['88aa787','b24652c']}
+ALSO={'KF-C04-01':['9d34644','cf06b08'],'KF-C09-08':['21bcd7c','3ef5099','5655cc9'],'KF-C04-04':['21bcd7c','3ef5099','5655cc9'],'KF-C09-10':['21bcd7c','3ef5099'],'KF-C08-03':['3d15d91','12432c4'],'KF-C10-18':['ae68f6e','8a5e8ec'],'KF-C10-14':['c48641a','ae68f6e','9405992'],'KF-C02-07':['1dc7e3b','fadd40e','d811ef2'],'KF-C02-08':['1dc7e3b','fadd40e'],'KF-C05-06':['88aa787','b24652c'],'KF-C02-10':['9048362','6b28e90','112b0a8','e5bdc9a'],'KF-C02-11':['9048362','6b28e90','112b0a8'],'KF-C02-12':['9048362','6b28e90'],'KF-C02-13':['9048362']}
 def sh(cmd,cwd=None,timeout=3600):
     p=subprocess.run(cmd,shell=True,cwd=cwd,capture_output=True,text=True,timeout=timeout)
     return p.returncode,p.stdout,p.stderr
